@@ -93,6 +93,18 @@ register("C32", module="histchecks", fn="case_c32", replay="replay_c32", binarie
          assumptions=["crash model = SIGKILL of the plz process: kernel state (page cache, xattrs, renames) survives, nothing deferred runs", "build commands are atomic steps of the simulation, so a crash lands between FS operations of plz itself or at the scripted point inside a command"] + HIST_ASSUME,
          components={"real": REAL_WHOLE, "stub": STUB_WHOLE})
 
+register("C10", module="histchecks", fn="case_c10", replay="replay_c10", binaries=("simplz",),
+         cases={"quick": 32, "thorough": 1200}, budget={"quick": 240, "thorough": 3000}, level="exploration",
+         rule="case = 2-4 genrules that write their whole environment to their output, each with a random subset of {PV_A, PV_B} in pass_env, config-level passenv/passunsafeenv on or off, an invoking environment of ~8 variables carrying unique canary values, and 2-5 steps that change or unset one variable followed by `plz build`; the invoking environment of every simulated process is constructed exactly; oracle: no canary value of an unlisted variable appears in any output, a listed (hashed) variable's current value is what the output records (so a change forced a rebuild), changing an unlisted or unsafe variable runs no command, an unsafe variable is visible whenever a command runs; distinct_nontrivial = distinct (repository, step list) pairs",
+         assumptions=["pass_unsafe_env is a configuration option at this revision ([build] passunsafeenv), so it is exercised through .plzconfig", "environment dumps contain absolute scratch paths and are never compared with another directory's build"],
+         components={"real": REAL_WHOLE, "stub": STUB_WHOLE + ["invoking shell environment (constructed by the simulator)"]})
+
+register("C11", module="histchecks", fn="case_c11", replay="replay_c11", binaries=("simplz",),
+         cases={"quick": 32, "thorough": 1200}, budget={"quick": 240, "thorough": 3000}, level="exploration",
+         rule="case = 2-4 gentest targets whose outcome depends on a data file or on the output of a genrule it lists as data, plus 2-6 steps from: flip a data/source file between pass and fail, change a test command, repeat with no change, rm -rf plz-out, revert to an earlier state (dir cache on in 30%), each followed by `plz test //t:all` as a fresh simulated process; oracle: exit code zero exactly when every test passes on the current tree, per-test outcome in the results file equals the expected one, a test whose command did not run must pass now and must have passed before with the same command and data, a failing test's command always runs; distinct_nontrivial = histories with >=2 steps",
+         assumptions=["test commands log their execution to a file outside the repository; expected outcomes are computed from the RepoSpec (content == pass)"],
+         components={"real": REAL_WHOLE, "stub": STUB_WHOLE})
+
 
 def cmd_check(pid, tier):
     import framework
